@@ -942,6 +942,8 @@ def EDFA(input: optical_signal, G: float, NF: float, BW: float=None):
         raise TypeError("`input` must be of type (optical_signal).")
 
     output = optical_signal(signal=input.signal, noise=input.noise, n_pol=2) * np.sqrt( idb(G) )
+    if output.noise is not None:
+        output.noise = output.noise * np.sqrt( idb(G) )  # the noise that comes with the input is amplified like the signal
     
     if input.n_pol == 1:
         output.signal[1] = np.zeros_like(output.signal[0])  # y-polarization of signal is set to zeros.
